@@ -306,11 +306,33 @@ func (m *Model) UpdateMode(mode *traits.ElectricMode, opts ...resource.WriteOpti
 }
 
 func (m *Model) updateMode(mode *traits.ElectricMode, opts ...resource.WriteOption) (*traits.ElectricMode, error) {
+	// if this update makes the mode normal, check that there isn't another normal mode
+	if mode.Normal && writesField(opts, "normal") {
+		if normal, ok := m.normalMode(); ok && normal.Id != mode.Id {
+			return nil, ErrNormalModeExists
+		}
+	}
+
 	msg, err := m.modes.Update(mode.Id, mode, opts...)
 	if err != nil {
 		return nil, err
 	}
 	return msg.(*traits.ElectricMode), nil
+}
+
+// writesField reports whether a write with the given options writes the named top level field,
+// i.e. there is no update mask or the update mask mentions the field.
+func writesField(opts []resource.WriteOption, field string) bool {
+	mask := resource.ComputeWriteConfig(opts...).UpdateMask
+	if mask == nil {
+		return true
+	}
+	for _, path := range mask.GetPaths() {
+		if path == field {
+			return true
+		}
+	}
+	return false
 }
 
 // PullModes subscribes to changes to modes. Creation, modification or deletion of a mode on this device will send
